@@ -323,14 +323,6 @@ func (r *Rearranger) Rearrange() RangePoints {
 				locIDIsNull: true,
 			},
 		})
-		// and then starts again after IPv4 range
-		result = append(result, &RangePoint{
-			rangeStart: afterIPv4,
-			pointKind:  pointKindStart,
-			location: rangeLocation{
-				locIDIsNull: true,
-			},
-		})
 	}
 
 	// sort by nest
